@@ -232,6 +232,14 @@ class SimPopen:
             if fd is None:
                 return
             fd = _fd_of(fd)
+        if isinstance(fd, int) and fd in (1, 2):
+            # descriptors 1 and 2 of the *simulated* process are its standard streams (a handle such as the sys.stdout that a
+            # default argument captured when the module was imported stands for them) - never those of the harness
+            self._sim.counts['inherited_' + which] += 1
+            std = self._sim.std_streams.get('stdout' if fd == 1 else 'stderr')
+            if std is None:
+                return
+            fd = _fd_of(std)
         if getattr(fd, 'is_sim_std_stream', False):
             fd.write(data.decode('utf-8', 'replace'))
             return
